@@ -98,14 +98,14 @@ func PackValues(format string, values []rt.Value, budget uint64) (string, uint64
 			_ = p.align(0) &&
 				p.mustGetOptSize() &&
 				p.nextStringValue() &&
-				p.writeStr(p.optSize)
+				p.writeFixedStr(p.optSize)
 		case 'z':
 			if p.align(0) && p.nextStringValue() {
 				if strings.IndexByte(p.strVal, 0) >= 0 {
 					p.err = errStringContainsZeros
 				} else {
 
-					_ = p.writeStr(0) &&
+					_ = p.writeStr() &&
 						p.writeByte(0)
 				}
 			}
@@ -114,7 +114,7 @@ func PackValues(format string, values []rt.Value, budget uint64) (string, uint64
 				p.align(p.optSize) &&
 				p.nextStringValue() &&
 				p.packUint() &&
-				p.writeStr(0)
+				p.writeStr()
 			if p.err == errOutOfBounds {
 				p.err = errStringDoesNotFit
 			}
@@ -230,23 +230,28 @@ func (p *packer) consumeBudget(amount uint64) bool {
 	return true
 }
 
-func (p *packer) writeStr(maxLen uint) bool {
-	diff := 0
-	if maxLen > 0 {
-		diff = int(maxLen) - len(p.strVal)
-	}
-	if diff < 0 {
-		p.err = errStringLongerThanFormat
-		return false
-	}
+// writeStr writes the current string value.
+func (p *packer) writeStr() bool {
 	if !p.consumeBudget(uint64(len(p.strVal))) {
 		return false
 	}
 	p.w.Write([]byte(p.strVal))
-	if diff > 0 {
-		return p.fill(uint(diff), 0)
-	}
 	return true
+}
+
+// writeFixedStr writes the current string value padded with zeros to make up
+// size bytes.  It is an error for the string to be longer than that.
+func (p *packer) writeFixedStr(size uint) bool {
+	if size > math.MaxInt {
+		p.err = errOverflow
+		return false
+	}
+	strLen := uint(len(p.strVal))
+	if strLen > size {
+		p.err = errStringLongerThanFormat
+		return false
+	}
+	return p.writeStr() && p.fill(size-strLen, 0)
 }
 
 func (p *packer) align(n uint) bool {
